@@ -8,6 +8,7 @@ import (
 	"os"
 	"os/exec"
 	"runtime/pprof"
+	"sort"
 	"strings"
 	"syscall"
 
@@ -23,6 +24,7 @@ type Report struct {
 	PanicText string           `json:"panic_text,omitempty"`
 	PanicTask string           `json:"panic_task,omitempty"`
 	Deadlock  string           `json:"deadlock,omitempty"`
+	HangAt    string           `json:"hang_at,omitempty"`
 	Steps     int64            `json:"steps"`
 	Switches  int64            `json:"switches"`
 	VirtualNS int64            `json:"virtual_ns"`
@@ -131,6 +133,40 @@ func main() {
 		Steps: o.Steps, Switches: o.Switches, VirtualNS: o.VirtualNS, TraceHash: fmt.Sprintf("%016x", o.TraceHash),
 		SchedHash: fmt.Sprintf("%016x", o.SchedHash), TapeLen: len(o.Tape), Probes: o.Probes, Faults: o.Faults,
 		TasksEnd: o.TasksAtEnd, MaxTasks: o.MaxTasks}
+	if o.Status == simrt.StatusLivelock {
+		// name the loop by the source positions it cycles through
+		ids := append([]int64(nil), o.SoloSites...)
+		sort.Slice(ids, func(i, j int) bool { return ids[i] < ids[j] })
+		for _, id := range ids {
+			st := scen.Sites[int(id)]
+			if st.Func == "" {
+				continue
+			}
+			if rep.HangAt == "" {
+				rep.HangAt = st.Func
+			}
+			rep.Deadlock += fmt.Sprintf("\n  site %d: %s %s in %s", id, st.Kind, st.Pos, st.Func)
+		}
+	}
+	if o.Status == simrt.StatusLivelock && rep.HangAt == "" {
+		for _, l := range strings.Split(o.PanicText, "\n") {
+			l = strings.TrimSpace(l)
+			if strings.HasPrefix(l, "github.com/irai/packet") {
+				rep.HangAt = l
+				if i := strings.LastIndex(l, "("); i > 0 {
+					rep.HangAt = l[:i]
+				}
+				break
+			}
+		}
+	}
+	if o.Status == simrt.StatusLivelock {
+		rep.Deadlock += "\n" + o.PanicText
+		rep.PanicText = ""
+	}
+	if o.Status == simrt.StatusSpin {
+		rep.HangAt, rep.PanicText = spinning(o.PanicText)
+	}
 	if *withTape {
 		rep.Tape = o.Tape
 	}
@@ -150,6 +186,41 @@ func main() {
 	enc.Encode(rep)
 	pprof.StopCPUProfile()
 	os.Exit(0)
+}
+
+// spinning picks, from a dump of all goroutines, the one that is burning CPU inside the library
+// and returns its innermost library function and its stack.
+func spinning(dump string) (fn, stack string) {
+	for _, g := range strings.Split(dump, "\n\n") {
+		head := g
+		if i := strings.Index(g, "\n"); i >= 0 {
+			head = g[:i]
+		}
+		if !strings.Contains(head, "[running]") && !strings.Contains(head, "[runnable]") {
+			continue
+		}
+		if strings.Contains(g, "simrt.spinWatch") || !strings.Contains(g, "github.com/irai/packet") {
+			continue
+		}
+		for _, l := range strings.Split(g, "\n") {
+			l = strings.TrimSpace(l)
+			if strings.HasPrefix(l, "github.com/irai/packet") {
+				fn = l
+				if i := strings.LastIndex(l, "("); i > 0 {
+					fn = l[:i]
+				}
+				break
+			}
+		}
+		if len(g) > 6000 {
+			g = g[:6000]
+		}
+		return fn, g
+	}
+	if len(dump) > 6000 {
+		dump = dump[:6000]
+	}
+	return "", dump
 }
 
 // differential is the C10 check: the same scenario and the same tape are executed again in a
